@@ -166,8 +166,9 @@ def run(case, ctx):
         # in the far corner; also a prediction map without any background voxel
         pred, refa = gen.big_volume_pair(ctx.seed, i, ctx.tier)
         if i % 6 == 1 and pred.size <= 2**21:
-            pred = pred.copy()
-            pred[pred == 0] = 9  # one big unmatched "rest" instance: no background in the prediction
+            # no background in the prediction: the "rest" is one big unmatched instance carrying the smallest
+            # label value, which is also a reference label
+            pred = np.where(pred == 0, 1, pred + 1).astype(pred.dtype)
             ctx.count("f:C04.big_volume_without_background")
         ths = {"IOU": [0.3], "DSC": [0.5]}
         ctx.count("f:C04.big_sparse_volume")
